@@ -231,12 +231,48 @@ Fixpoint appendResultCompletions (items : list psend) (res : list ares) : list c
       end
   end.
 
-(* activeAppendItems: items whose context / deadline is still live, and the
-   completions of the others *)
+(* activeAppendItems.  [alive]: appendItemError(item) == nil.  The Go loop keeps
+   [active] nil until it needs a private copy; transcribed as written, including
+   its defect (C29-K1): when the batch STARTS with an inactive item the first
+   copy is the empty (nil) slice, so the next inactive item finds [active] still
+   nil and copies items[:i] — which are inactive items — into the active list. *)
 Definition alive (it : psend) : bool := ps_dead it =? 0.
+
+Fixpoint active_loop (all : list psend) (i : nat) (rest : list psend)
+         (active : option (list psend)) (filtered : bool) : option (list psend) * bool :=
+  match rest with
+  | [] => (active, filtered)
+  | it :: r =>
+      if alive it
+      then active_loop all (S i) r
+             (if filtered then Some (match active with Some a => a ++ [it] | None => [it] end) else active)
+             filtered
+      else active_loop all (S i) r
+             (match active with
+              | Some a => Some a
+              | None => match firstn i all with [] => None | l => Some l end   (* append(nil, items[:i]...) *)
+              end)
+             true
+  end.
+
+Definition inactive_comps (items : list psend) : list comp :=
+  map (fun it => errcomp it (ps_dead it)) (filter (fun it => negb (alive it)) items).
+
 Definition activeAppendItems (items : list psend) : list psend * list comp :=
-  (filter alive items,
-   map (fun it => errcomp it (ps_dead it)) (filter (fun it => negb (alive it)) items)).
+  let '(active, filtered) := active_loop items 0 items None false in
+  (if filtered then match active with Some a => a | None => [] end else items,
+   inactive_comps items).
+
+(* what activeAppendItems is meant to compute *)
+Definition activeAppendItems_spec (items : list psend) : list psend * list comp :=
+  (filter alive items, inactive_comps items).
+
+(* the batch starts with two inactive items: the trigger of C29-K1 *)
+Definition leading_dead2 (items : list psend) : bool :=
+  match items with
+  | a :: b :: _ => negb (alive a) && negb (alive b)
+  | _ => false
+  end.
 
 (* ---- the ports ------------------------------------------------------------------------ *)
 
